@@ -1533,7 +1533,7 @@ def describe(case):
 def plan(tier):
     if tier == "thorough":
         return [("M1", 200000), ("M2", 300000), ("M2sweep", 10000), ("M1aged", 4000), ("M4", 20000), ("M3", 30000)], 1800
-    return [("M1", 6000), ("M2", 9000), ("M2sweep", 500), ("M1aged", 128), ("M4", 400), ("M3", 1200)], 300
+    return [("M1", 6000), ("M2", 9000), ("M2sweep", 500), ("M1aged", 128), ("M4", 400), ("M3", 2000)], 420
 
 
 RULE = ("one run = one history of 2..12 operations (parse / parseFragment / parse of bytes with restart / serialize / walk / "
